@@ -54,6 +54,10 @@ func genC20(r *gen.Rand) *C20Case {
 	put("bad.yaml", map[string]any{"must": "$required"})
 	put("bad2.json", map[string]any{"r": "$merge:no.such"})
 	put("bad3.yaml", map[string]any{"fine": 1}, map[string]any{"$match": nil, "second": "$required"})
+	bigDoc := map[string]any{"k": 1}
+	tc.Bulk(r, bigDoc)
+	bigDoc["pad2"] = strings.Repeat("0123456789abcdef", r.Range(300, 5000)) // larger than any write buffer
+	put("big.yaml", bigDoc)
 	put("p.yaml", map[string]any{"base": true})
 	put("p.q.yaml", map[string]any{"top": 1}) // its parent p.yaml is the target of some faults
 	raw("broken.yaml", "a: [1, 2\n")
@@ -61,7 +65,7 @@ func genC20(r *gen.Rand) *C20Case {
 	raw("x.ini", "[x]\n")
 	raw("plain", "words\n")
 	// argument vector
-	good := []string{"a.yaml", "a.b.yaml", "c.json", "d/e.yaml", "t.toml", "./a.b.yaml", "d/../c.json", "./d/e.yaml", "p.q.yaml", "p.q.json"}
+	good := []string{"a.yaml", "a.b.yaml", "c.json", "d/e.yaml", "t.toml", "./a.b.yaml", "d/../c.json", "./d/e.yaml", "p.q.yaml", "p.q.json", "big.yaml", "big.json"}
 	virtual := []string{"a.b.json", "c.yaml", "a.toml", "d/e.json", "c.yml", "a.b.jsonl"}
 	failing := []string{"bad.yaml", "bad2.json", "broken.yaml", "bad.json", "bad3.yaml", "bad3.json"}
 	pass := []string{"apply", "get", "-f", "-v", "--dry-run", "--opt=value", "--file=a.b.yaml", "-o=c.json", "notes.txt", "x.ini", "plain",
